@@ -238,6 +238,7 @@ def bytes_eq(ex, a, b):
 
 def veq(ex, a, b):
     """Python == as bool | SBool."""
+    a, b = force(ex, a), force(ex, b)
     if a is None or b is None:
         return a is b
     if is_num(a) and is_num(b):
@@ -851,7 +852,7 @@ def contains(ex, cont, x):
     if isinstance(cont, SList):
         if cont.mid is not None:
             raise Unsupported('in on list with symbolic segment')
-        return vor(ex, [veq(ex, x, y) for y in cont.items])
+        return vor(ex, [veq(ex, x, force_item(ex, cont.items, i)) for i in range(len(cont.items))])
     if isinstance(cont, SDict):
         if isinstance(x, (SInt, SBool)) and not cont.sym:
             return vor(ex, [veq(ex, x, ok) for (ok, _) in cont.d.values()])
@@ -978,6 +979,13 @@ def getitem(ex, obj, idx):
     raise Unsupported('subscript of %r' % (obj,))
 
 
+def force_item(ex, items, j):
+    v = items[j]
+    if isinstance(v, LazyVal):
+        v = v.force(ex)
+    return v
+
+
 def select_concrete(ex, items, idx):
     """items[idx] for symbolic idx over a concrete list: fork per position."""
     n = len(items)
@@ -1009,9 +1017,9 @@ def list_getitem(ex, l, idx):
     if l.mid is None:
         items = l.items
         if isinstance(idx, SInt):
-            return select_concrete(ex, items, idx)
+            return force(ex, select_concrete(ex, items, idx))
         j = norm_index(ex, len(items), idx, 'list index')
-        return items[j]
+        return force_item(ex, items, j)
     # symbolic segment present
     n = ex.seq_len(l)
     j = norm_index(ex, n, idx, 'list index')
@@ -1170,6 +1178,8 @@ def iterate(ex, v, where=None):
         return list(v)
     if isinstance(v, SList):
         if v.mid is None:
+            if any(isinstance(x, LazyVal) for x in v.items):
+                return (force_item(ex, v.items, i) for i in range(len(v.items)))
             return list(v.items)
         return iter_symlist(ex, v, where)
     if isinstance(v, SBytes):
